@@ -21,6 +21,30 @@ CHECKS = {
          "affine forms + min-closure dataflow + typestate over enumerated paths", "3 C09"),
  "C10": ("FD pool acquire/release pairing and who-may-release, effect-free refusal, eventual deletion, wake on abort",
          "acquire/release pairing + who-may-call over the resolved call graph", "3 C10"),
+ "C03": ("byte/bit image of all TP.CM/TP.DT/FD builders and parsers against independent SAE tables, padding, FD length LUT, sequence base",
+         "known-bits / bit-provenance abstract interpretation of the frame builders and parsers vs transcribed SAE tables", "3 C03"),
+ "C04": ("J1939-81 decision table of the claim handler, NAME comparison operands and direction, claim broadcast, veto range/timer shape",
+         "decision-table extraction by path enumeration + propositional truth tables over canonical guard atoms", "3 C04"),
+ "C05": ("listener gate formula, destination filter dominates every PDU1 dispatch and never hits PDU2, per-listener delivery formula",
+         "guard dominance and formula equivalence by truth table over canonical atoms", "3 C05"),
+ "C11": ("fit bound <= 64, header-size agreement, C-PG header layout and decoder, key injectivity, padding skip-compatibility, min-deadline, wake, flush",
+         "affine bound reasoning + known-bits layout + path rules", "3 C11"),
+ "C12": ("no shrink-while-iterating (interprocedural), remove-all construct, first deadline, whole-period re-arm and boundary contradiction, wake, liveness re-check",
+         "loop/mutation analysis over the resolved call graph + affine timer arithmetic + contradiction rule on comparison boundaries", "3 C12"),
+ "C13": ("who-may-send (call graph), state-guard dominance at every send entry point, source-address provenance, claim-only sender, state/address coupling",
+         "who-may-call + guard dominance + argument provenance (reaching definitions)", "3 C13"),
+ "C14": ("request layout and decoder identity, dispatch guard, handler guard formula, fan-out once / claim answer",
+         "known-bits layout + guard truth tables + argument provenance", "3 C14"),
+ "C15": ("about 75 proof obligations: identifier compose/parse inverses and positions, PGN fields/value/classification, NAME widths, J1939-81 positions, value/bytes views, arbitration comparison",
+         "proof by exact abstract evaluation in a known-bits / bit-provenance domain (each obligation covers the whole input domain)", "3 C15"),
+ "C16": ("DTC/DM1/DM22 layouts vs J1939-73, lamp table and its inverse decision tree, register/deregister key agreement, DM1 cycle",
+         "known-bits layout vs spec tables + constant-propagated decision tree + registry key dataflow", "3 C16"),
+ "C17": ("DM14/DM15 sibling composition decode o encode = identity, DM16 prefix/extraction, single-frame threshold agreement, chunk slicing, told arguments, idle reset",
+         "known-bits composition of sibling encoders/decoders + affine slice forms + threshold partition agreement", "3 C17"),
+ "C18": ("key check dominates application callbacks and serving, error translation, bounded wait raises, restore on all exits incl. exceptional, sibling reset",
+         "guard dominance + acquire/release pairing with exception edges (interprocedural must-effects) + sibling cross-check", "3 C18"),
+ "C19": ("admission guard first and formula, busy branch effect set and addressee, facade busy wrap, idle reset",
+         "guard formula equivalence + interprocedural field-write sets specialised to constant arguments", "3 C19"),
 }
 NA = {}
 def main():
